@@ -60,6 +60,14 @@ def _v(oracle, sig, detail):
     return {"oracle": oracle, "sig": f"{oracle}|{sig}", "detail": detail}
 
 
+def project_without_end(text: str) -> bool:
+    """The project header gives a start date but no '+<duration>' (grammatical: the duration is optional)."""
+    import re
+
+    m = re.search(r"project\s+\S+\s+(\"[^\"]*\"\s+)?\d{4}-\d{2}-\d{2}(-\d{2}:\d{2})?\s*(\S)", text)
+    return bool(m) and m.group(3) != "+"
+
+
 def unbalanced_braces(text: str) -> bool:
     """True if '{' and '}' outside strings and comments do not balance.  Texts with macros or rich-text blocks
     are not judged (a macro body may legitimately carry a lone brace)."""
@@ -108,7 +116,8 @@ def oracles(case: dict, r: dict, B: dict) -> list[dict]:
     if r.get("parse") == "rejected":
         kind = r.get("parse_exc", "").split(":")[-1]
         if kind not in PARSE_ERROR_TYPES:
-            V.append(_v("rejection", f"internal|{r['parse_exc']}|{r['parse_frame']}", f"parse() rejected the text with {r['parse_exc']} ({r.get('parse_msg', '')}) at {r['parse_frame']}: an internal error, not a parse error"))
+            where = "project-without-end" if kind == "TypeError" and project_without_end(case.get("text", "")) else r["parse_frame"]
+            V.append(_v("rejection", f"internal|{r['parse_exc']}|{where}", f"parse() rejected the text with {r['parse_exc']} ({r.get('parse_msg', '')}) at {r['parse_frame']}: an internal error, not a parse error"))
         # rejected by the grammar / transformer: cost must be proportional to the text
         # macro expansion may legitimately make 100 passes over a text that grows to 100x its size
         # (about 5 steps per character and pass): texts with macro definitions get the wider constant
@@ -137,6 +146,8 @@ def oracles(case: dict, r: dict, B: dict) -> list[dict]:
         where = r["sched_frame"]
         if r["sched_exc"] == "AttributeError" and "'dict' object has no attribute" in r.get("sched_msg", ""):
             where = "allocation-dict-as-resource"
+        if r["sched_exc"] == "TypeError" and "NoneType" in r.get("sched_msg", "") and project_without_end(case.get("text", "")):
+            where = "project-without-end"
         V.append(_v("no-internal-error", f"{r['sched_exc']}|{where}", f"schedule() of an accepted project raised {r['sched_exc']}: {r.get('sched_msg', '')} at {r['sched_frame']}"))
     elif s == "returned":
         d = r["disposition"]
